@@ -73,8 +73,7 @@ func ZeroValueOf(typeExpr ast.Expr, typ types.Type) ast.Expr {
 
 	case *types.Slice, *types.Map, *types.Pointer, *types.Interface:
 		fun := typeExpr
-		switch typeExpr.(type) {
-		case *ast.StarExpr, *ast.ChanType:
+		if conversionNeedsParens(typeExpr) {
 			// `*T(nil)` is `*(T(nil))`, the conversion needs `(*T)(nil)`.
 			fun = &ast.ParenExpr{X: typeExpr}
 		}
@@ -88,6 +87,39 @@ func ZeroValueOf(typeExpr ast.Expr, typ types.Type) ast.Expr {
 
 	default:
 		return nil
+	}
+}
+
+// conversionNeedsParens reports whether T(x) would not be parsed
+// as a conversion to the type expression T without extra parentheses.
+func conversionNeedsParens(typeExpr ast.Expr) bool {
+	switch typeExpr := typeExpr.(type) {
+	case *ast.StarExpr, *ast.ChanType, *ast.FuncType:
+		return true
+	case *ast.ArrayType:
+		// `[]func()(nil)` is a slice of functions returning `(nil)`.
+		return conversionTailIsOpen(typeExpr.Elt)
+	case *ast.MapType:
+		return conversionTailIsOpen(typeExpr.Value)
+	default:
+		return false
+	}
+}
+
+// conversionTailIsOpen reports whether the type expression ends with
+// a function or channel type, which would absorb a following `(x)`.
+func conversionTailIsOpen(typeExpr ast.Expr) bool {
+	switch typeExpr := typeExpr.(type) {
+	case *ast.FuncType, *ast.ChanType:
+		return true
+	case *ast.StarExpr:
+		return conversionTailIsOpen(typeExpr.X)
+	case *ast.ArrayType:
+		return conversionTailIsOpen(typeExpr.Elt)
+	case *ast.MapType:
+		return conversionTailIsOpen(typeExpr.Value)
+	default:
+		return false
 	}
 }
 
